@@ -188,9 +188,16 @@ fn evaluate(case: &Case, p: &Params, info: &mut CaseInfo) -> Verdict {
     Verdict::Pass
 }
 
-fn strategy(keepalives: Vec<Option<u64>>) -> impl Strategy<Value = Case> {
+/// `fault_free_share`: share of sequences without any failed setup (accepted keepalive values, no hook
+/// fault); raised while the stall finding is listed so that the bulk search still exercises complete
+/// sequences of served connections.
+fn strategy(keepalives: Vec<Option<u64>>, accepted: Vec<Option<u64>>, fault_free_share: u32) -> impl Strategy<Value = Case> {
     let conn = (prop::bool::weighted(0.3), 0u8..=2).prop_map(|(fail, version)| Conn { fail, version });
-    (prop::sample::select(keepalives), prop::collection::vec(conn, 3..=12)).prop_map(|(keepalive, conns)| Case { keepalive, conns })
+    let good = (0u8..=2).prop_map(|version| Conn { fail: false, version });
+    prop_oneof![
+        (100 - fault_free_share) => (prop::sample::select(keepalives), prop::collection::vec(conn, 3..=12)).prop_map(|(keepalive, conns)| Case { keepalive, conns }),
+        fault_free_share => (prop::sample::select(accepted), prop::collection::vec(good, 3..=12)).prop_map(|(keepalive, conns)| Case { keepalive, conns }),
+    ]
 }
 
 pub fn run(ctx: &Ctx, rep: &mut Report, replay: Option<&serde_json::Value>) {
@@ -209,7 +216,8 @@ pub fn run(ctx: &Ctx, rep: &mut Report, replay: Option<&serde_json::Value>) {
     rep.extra.insert("kernel_keepalive_probe".into(), serde_json::json!(probe));
     let exclude = !ctx.strict && ctx.known_key(KEY_STALL).is_some();
     let excluded = std::cell::Cell::new(0u64);
-    run_prop(ctx, rep, "seq", ctx.tier.pick(150, 2500), strategy(keepalives), |case, info| {
+    let accepted: Vec<Option<u64>> = keepalives.iter().copied().filter(|k| k.map(kernel_accepts_keepalive).unwrap_or(true)).collect();
+    run_prop(ctx, rep, "seq", ctx.tier.pick(150, 2500), strategy(keepalives, accepted, if exclude { 60 } else { 10 }), |case, info| {
         let rejected = case.keepalive.map(|s| !kernel_accepts_keepalive(s)).unwrap_or(false);
         match first_followed_failure(case, rejected) {
             Some(i) if exclude => {
